@@ -148,7 +148,8 @@ class Ctx:
         for k in self._known:
             if k.get("status") != "known" or k.get("property") != self.prop:
                 continue
-            if k.get("clause") != v["clause"]:
+            kc = k.get("clause")
+            if v["clause"] not in (kc if isinstance(kc, list) else [kc]):
                 continue
             pred = k.get("match", "True")
             try:
@@ -169,6 +170,13 @@ class Ctx:
                 known_hits.setdefault(k["id"], [k, 0])[1] += 1
             else:
                 real.append(v)
+        if os.environ.get("VERIF_DEBUG"):
+            cls_count = {}
+            for v in self.violations:
+                key = (v["clause"], (v["witness"] or {}).get("cls"), bool(self._match_known(v)))
+                cls_count[key] = cls_count.get(key, 0) + 1
+            for key, nn in sorted(cls_count.items(), key=str):
+                print("  CLASS", key, nn)
         # group real violations by clause -> one replay file per clause (first witnesses kept)
         REPLAYS.mkdir(exist_ok=True)
         by_clause = {}
